@@ -6,9 +6,9 @@ Inputs are plain data (the data *types* `UseKind`, `HSpec`, `Sample`, `LEv`, `Se
 `GEntry` are shared with the model; none of the model's functions is called):
 
 * the recorded history at the tally Scope API level — every first use with its observed outcome
-  (usable / no-op / the callback panicked / an error came back from `RegisterTimer` / a nil vector
-  was dereferenced or handed out / some other panic) and the number of error-callback invocations
-  during the call; every increment, gauge update, timer record, histogram sample with whether the
+  (usable / no-op / the callback panicked / an error came back from `RegisterTimer`,
+  `RegisterCounter` or `RegisterGauge` / a nil vector was dereferenced or handed out / some other
+  panic) and the number of error-callback invocations during the call; every increment, gauge update, timer record, histogram sample with whether the
   call panicked; every report pass;
 * the canonicalised `Gather()` output observed after a report pass.
 
@@ -54,11 +54,13 @@ inductive Rec
 
 def viaRegister : UseKind → Bool
   | .timerAs _ => true
+  | .counterAs => true
+  | .gaugeAs => true
   | _ => false
 
 /-- the caller gets a usable metric; or Prometheus' rejection went to the callback (once) and the
 caller gets a no-op — or the panic of the callback itself, if it is a panicking one; through
-`RegisterTimer` the error comes back instead.  Nothing else. -/
+`RegisterTimer` / `RegisterCounter` / `RegisterGauge` the error comes back instead.  Nothing else. -/
 def firstUseOk (cbPanics : Bool) (kind : UseKind) (o : ObsOutcome) (callbacks : Nat) : Bool :=
   if viaRegister kind then
     (o == .usable || o == .regError) && callbacks == 0
@@ -133,9 +135,14 @@ def expectedHistogram (spec : HSpec) (samples : List Sample) : GVal :=
 
 /-! ## the gather clause -/
 
-/-- `AllocateTimer` is `RegisterTimer` with the default flavour as far as the kind of metric goes -/
+/-- `AllocateTimer` is `RegisterTimer` with the default flavour as far as the kind of metric goes,
+and a counter obtained through `RegisterCounter` adds into the same series as an `AllocateCounter`
+one (sums do not depend on when a buffered delta is delivered).  A gauge written directly
+(`RegisterGauge`) and a buffered one (`AllocateGauge`) under one name are the excluded reuse: the
+buffered value is delivered by the next report pass, over a later direct `Set`. -/
 def normKind (histTimers : Bool) : UseKind → UseKind
   | .timer => .timerAs histTimers
+  | .counterAs => .counter
   | k => k
 
 def typeOf (histTimers : Bool) : UseKind → Kind
@@ -144,6 +151,8 @@ def typeOf (histTimers : Bool) : UseKind → Kind
   | .timer => if histTimers then .histogram else .summary
   | .timerAs h => if h then .histogram else .summary
   | .histogram _ => .histogram
+  | .counterAs => .counter
+  | .gaugeAs => .gauge
 
 def gkind : GVal → Kind
   | .counter _ => .counter
@@ -164,8 +173,8 @@ def histCount : GVal → Option Nat
 /-- the value clause for one listed series; `kind` is the (common) kind of the live uses of it -/
 def valueOk (kind : UseKind) (evs : List LEv) (v : GVal) : Bool :=
   match kind with
-  | .counter => v == .counter (incSum evs)
-  | .gauge => v == .gauge (lastUpdate evs 0)
+  | .counter | .counterAs => v == .counter (incSum evs)
+  | .gauge | .gaugeAs => v == .gauge (lastUpdate evs 0)
   | .timer | .timerAs _ =>
     (match v with
      | .summary c => c == recordCount evs
